@@ -1,23 +1,30 @@
 #!/bin/bash
 # Run every seeded change (all waves) against the quick check(s) recorded in its meta.json; table to seeded/RESULTS.md.
 # Each patch is applied to a scratch worktree of /repo's HEAD (bin/seedrun.sh): /repo and evidence/ are not touched.
+# usage: bin/seedall.sh [parallel jobs, default 3]
 cd "$(dirname "$0")/.."
+J=${1:-3}
+TMP=$(mktemp -d /tmp/seedall.XXXXXX)
+one() {
+  d=$1; TMP=$2
+  w=$(dirname $d); id=$(basename $d)
+  first=$(.venv/bin/python -c "import json; m=json.load(open('$d/meta.json')); print((m.get('checks') or [m['property']])[0])" 2>/dev/null)
+  res=$(LINES_MAX=400 bin/seedrun.sh /verif/$d/patch.diff $first 2>&1 | grep -v '^WARNING')
+  rc=$(echo "$res" | grep -o 'rc=[0-9]*' | tail -1)
+  [ -z "$rc" ] && rc="$(echo "$res" | tail -1 | cut -c1-60)"
+  v=$(echo "$res" | grep -A1 '^VIOLATION' | sed -n 2p | cut -c1-160 | tr '|' '/')
+  echo "| ${w#seeded}. | $id | bin/check $first --tier quick | $rc | $v |" > $TMP/$w.$id.row
+  echo "$w/$id $first $rc"
+}
+export -f one
+ls -d seeded/C*/ seeded2/C*/ seeded3/C*/ | sed 's:/$::' | xargs -P $J -I{} bash -c "one {} $TMP"
 OUT=seeded/RESULTS.md
 echo "# Seeded changes vs. checks (bin/seedall.sh, /repo HEAD $(git -C /repo rev-parse --short HEAD), $(date -u +%FT%TZ))" > $OUT
 echo "" >> $OUT
+echo "Wave 1 = seeded/, wave 2 = seeded2/, wave 3 = seeded3/.  The check is the first entry of the seed's meta.json \`checks\` (the property's own check unless noted there)." >> $OUT
+echo "" >> $OUT
 echo "| wave | seed | check | exit code with the patch | first violation line |" >> $OUT
 echo "|---|---|---|---|---|" >> $OUT
-for w in seeded seeded2 seeded3; do
-  for d in $w/C*/; do
-    id=$(basename $d)
-    checks=$(.venv/bin/python -c "import json,sys; m=json.load(open('$d/meta.json')); print(' '.join(m.get('checks') or [m['property']]))" 2>/dev/null)
-    first=$(echo $checks | awk '{print $1}')
-    res=$(LINES_MAX=400 bin/seedrun.sh /verif/$d/patch.diff $first 2>&1 | grep -v '^WARNING')
-    rc=$(echo "$res" | grep -o 'rc=[0-9]*' | tail -1)
-    [ -z "$rc" ] && rc="$(echo "$res" | tail -1 | cut -c1-60)"
-    v=$(echo "$res" | grep -A1 '^VIOLATION' | sed -n 2p | cut -c1-160 | tr '|' '/')
-    echo "| ${w#seeded}. | $id | bin/check $first --tier quick | $rc | $v |" >> $OUT
-    echo "$w/$id $first $rc"
-  done
-done
+cat $TMP/seeded.*.row $TMP/seeded2.*.row $TMP/seeded3.*.row 2>/dev/null | sed 's/^| \. |/| 1 |/; s/^| 2\. |/| 2 |/; s/^| 3\. |/| 3 |/' >> $OUT
+rm -rf $TMP
 git -C /repo status --short | head -2
